@@ -433,7 +433,7 @@ def judge(scenario: str, plan: Tuple[str, int, str], run: Run, twin: Run) -> Lis
     if kind == 'listener':
         same = all(obs[k] == twin.obs[k] for k in ('state', 'paused', 'trace', 'outputs', 'task', 'closed')) and \
             obs['future'][0] == twin.obs['future'][0] and [r[0] for r in run.call_results] == [r[0] for r in twin.call_results]
-        if not same or loop_errors:
+        if not same:  # (reporting the listener's failure to the loop's exception handler changes nothing about the process)
             violate('listener:changes-the-process', {'faulted': repr(obs)[:400], 'twin': repr(twin.obs)[:400]}, kind=kind)
         if any(r[2] is not None for r in run.call_results):
             violate('listener:exception-reaches-caller', repr(run.call_results), kind=kind)
@@ -451,10 +451,19 @@ def judge(scenario: str, plan: Tuple[str, int, str], run: Run, twin: Run) -> Lis
     if kind == 'pause-play-hook':
         # reported to whoever requested the pause / play ...
         reported = False
+        def carries(exc: Any) -> bool:
+            # "is reported to whoever requested": the exception itself, or one raised from it
+            seen = 0
+            while exc is not None and seen < 10:
+                if exc is fault:
+                    return True
+                exc, seen = exc.__cause__ or exc.__context__, seen + 1
+            return False
+
         for name, ret, exc in run.call_results:
-            if exc is fault:
+            if carries(exc):
                 reported = True
-            if isinstance(ret, asyncio.Future) and ret.done() and not ret.cancelled() and ret.exception() is fault:
+            if isinstance(ret, asyncio.Future) and ret.done() and not ret.cancelled() and carries(ret.exception()):
                 reported = True
         if not reported:
             violate('pause-play:not-reported-to-requester', repr(run.call_results), kind=kind)
